@@ -816,6 +816,9 @@ def adjoint_programs(algopy):
         ("div_const_bigger", lambda x: algopy.sum(x[:2] / numpy.array([[1., 2.], [3., 4.], [5., 6.]]) + numpy.array([[1., 2.], [3., 4.], [5., 6.]]) / x[2:])),
         ("special", lambda x: algopy.sum(algopy.special.erf(x) * algopy.special.expit(x) + algopy.special.dawsn(x))),
         ("elementary", lambda x: algopy.sum(algopy.exp(algopy.sin(x)) * algopy.log(x * x + 1.) + algopy.sqrt(x * x + 2.) * algopy.tan(x * 0.5) + algopy.cos(x))),
+        # transforms that pad or truncate (n different from the length of the axis)
+        ("fft_n_pad", lambda x: algopy.sum(algopy.real(algopy.fft.fft(x * x, n=6)) * numpy.array([1., 2., 3., 4., 5., 6.]) + algopy.imag(algopy.fft.fft(x * x, n=6)))),
+        ("ifft_n_truncate_axis0", lambda x: algopy.sum(algopy.real(algopy.fft.ifft(algopy.reshape(x * x, (2, 2)), n=1, axis=0)) * numpy.array([[1., 2.]]))),
         # reshape / flatten of intermediates that own their data in a transposed layout
         ("reshape_scaled_transpose", lambda x: algopy.sum(algopy.reshape(2.0 * algopy.reshape(x * x, (2, 2)).T, (4,)) * numpy.array([1., 2., 3., 4.]))),
         ("reshape_sum_of_transposes", lambda x: (lambda X: algopy.sum(algopy.reshape(X.T + (X * X).T, (4,)) * numpy.array([1., 2., 3., 4.])))(algopy.reshape(x, (2, 2)))),
